@@ -316,3 +316,10 @@ def run(ctx: Ctx, rep: Report, tier: str):
     rep.rule("C05.V17", "the resolver's verdict is booked: keep -> loser entry CONFLICT with its winner-side half cleared, winner marked unsynced; not keep -> winner half grafted "
              "onto the loser's entry, the emptied entry discarded, all four sync markers set", 10)
     section(rep, lambda: resolution_bookkeeping(ctx, rep, "C05.V17"))
+    from rules.common import rename_reuse_guard
+    rep.rule("C05.V18", "the provider's own rename event of a .conflicted copy never takes over the winner's entry: in SyncState.update the rename-from entry is reused only when "
+             "there is no entry for the new id, or that entry is not CONFLICTED and (old synced or new unsynced)", 1)
+    section(rep, lambda: rename_reuse_guard(ctx, rep, "C05.V18"))
+    from rules.common import refresh_covers_both_sides
+    rep.rule("C05.V19", "a conflict is seen even when only one side's event arrived: the pre-sync refresh re-reads the quiet side too, so hash_conflict() can fire (C14.W1)", 1)
+    section(rep, lambda: refresh_covers_both_sides(ctx, rep, "C05.V19"))
